@@ -61,6 +61,30 @@ let run_M caseno tk =
   let tr = map_transcript ity (nat_of_int lay) pv pat (nat_of_int ctor) es ss dpv idxs in
   Printf.printf "M %d %s\n" caseno (pr_transcript ["ext"; "span"; "st"; "strides"; "fl"; "mfl"; "sz"; "emp"; "mext"; "mst"; "rk"; "sext"; "offs"] tr)
 
+(* family X: prog kind ... *)
+let run_X caseno tk =
+  let _prog = next_int tk in
+  let kind = next_int tk in
+  let read_type tk = let t = ity_of_nat (nat_of_int (next_int tk)) in let r = next_int tk in
+    let pat = take_n tk r (fun tk -> opt_of_tok (next tk)) in (t, r, pat) in
+  if kind = 0 then begin
+    let (t, r, pat) = read_type tk in
+    let _path = next_int tk in let _u = next_int tk in let mode = next_int tk in let n = next_int tk in
+    let vals = take_n tk n next_z in
+    Printf.printf "X %d %s\n" caseno (pr_transcript ["rk"; "sext"; "ext"] (x_ctor t pat (nat_of_int mode) vals))
+  end else if kind = 1 then begin
+    let (ts, r, pats) = read_type tk in
+    let tt = ity_of_nat (nat_of_int (next_int tk)) in
+    let patt = take_n tk r (fun tk -> opt_of_tok (next tk)) in
+    let vals = take_n tk r next_z in
+    Printf.printf "X %d %s\n" caseno (pr_transcript ["rk"; "sext"; "ext"] (x_conv ts pats tt patt vals))
+  end else begin
+    let (ta, ra, pata) = read_type tk in
+    let (tb, rb, patb) = read_type tk in
+    let va = take_n tk ra next_z in let vb = take_n tk rb next_z in
+    Printf.printf "X %d %s\n" caseno (pr_transcript ["eq"; "ne"] (x_cmp ta pata tb patb va vb))
+  end
+
 let () =
   let ic = open_in Sys.argv.(1) in
   let caseno = ref 0 in
@@ -72,6 +96,7 @@ let () =
          let tk = { a; p = 1 } in
          (match a.(0) with
           | "M" -> run_M !caseno tk
+          | "X" -> run_X !caseno tk
           | f -> Printf.printf "%s %d unknown-family\n" f !caseno);
          incr caseno
        end
